@@ -134,6 +134,12 @@ func (bf *Filter) matches(data []byte) bool {
 		return false
 	}
 
+	// An empty filter has no bits: nothing can match it, and computing a
+	// bit index modulo its size would divide by zero.
+	if len(bf.msgFilterLoad.Filter) == 0 {
+		return false
+	}
+
 	// The bloom filter does not contain the data if any of the bit offsets
 	// which result from hashing the data using each independent hash
 	// function are not set.  The shifts and masks below are a faster
@@ -190,6 +196,11 @@ func (bf *Filter) MatchesOutPoint(outpoint *wire.OutPoint) bool {
 // This function MUST be called with the filter lock held.
 func (bf *Filter) add(data []byte) {
 	if bf.msgFilterLoad == nil {
+		return
+	}
+
+	// An empty filter has no bits to set.
+	if len(bf.msgFilterLoad.Filter) == 0 {
 		return
 	}
 
